@@ -27,7 +27,7 @@ TIMEOUT = 1500
 ORACLE_NEEDS_JUDGE = True
 MANIFEST = {
     "level_text": "Kernel-checked theorems: for EVERY actor forest and EVERY interleaving of the concurrent child shutdowns (Model.C17.Stops: freeChildren tears the children down concurrently, then PostStop) the teardown order is a permutation of the reached actors (C17_perm), contains every running actor exactly once and no stopped one (C17_exactly_once, distinct actors, stopped actors have no running descendants), and every actor comes after all actors reached inside its subtree (C17_children_first); a PoisonPill dequeued by an active grain deactivates it once inside that turn (C17_grain_pill_deactivates, with C31_inturn: at most once on every schedule); a Tell whose flag test runs after the stop is rejected and enqueues nothing (C17_send_after_stop_rejected). The clause `after Stop returns no user handler runs` is refuted by the counterexample shared with C06 (C17_handler_outlives_stop) and replayed on the real system. Tie: random trees and grain populations with traffic in flight in a real actor system; the model predicts which actors/grains are torn down and every action result, and Spec.C17 judges exactly-once, children-before-parents (logical clock), grain deactivation and quietness after Stop on the recorded history.",
-    "level_note": "Partial: `no user handler runs after Stop returns` is false (C17-F1 = C06-F1 seen through ActorSystem.Stop; C17-F2 = C31-F2 was fixed by 6dc1e0c; C17-F3: a send racing Stop can activate a grain that escapes poisonAllGrains; C17-F4: an actor restarted after a completed stop is outside the tree and survives Stop). The per-actor stop is Model.C06's critical section and is not re-modelled here; the teardown model is at PostStop granularity (which actors, in what order) and takes the running flags at the moment Stop reaches each actor as given; system actors of the chain (singleton manager, relocator, dead letter, death watch, topic actor, noSender, guardians) are exercised by the real run but only user actors and grains are judged. A grain whose handler is blocked for longer than the shutdown timeout is abandoned by design (poisonAllGrains returns ctx.Err()) and is not generated.",
+    "level_note": "Partial: `no user handler runs after Stop returns` is false (C17-F1 = C06-F1 seen through ActorSystem.Stop; C17-F2 = C31-F2 was fixed by 6dc1e0c; C17-F3: a send racing Stop can activate a grain that escapes poisonAllGrains; C17-F4, an actor restarted after a completed stop running outside the tree, is fixed). The per-actor stop is Model.C06's critical section and is not re-modelled here; the teardown model is at PostStop granularity (which actors, in what order) and takes the running flags at the moment Stop reaches each actor as given; system actors of the chain (singleton manager, relocator, dead letter, death watch, topic actor, noSender, guardians) are exercised by the real run but only user actors and grains are judged. A grain whose handler is blocked for longer than the shutdown timeout is abandoned by design (poisonAllGrains returns ctx.Err()) and is not generated.",
     "technique": "Lean 4 structural induction over forests/interleavings + scenario differential and spec oracle on recorded histories of the real actor system",
 }
 TRUSTED = [
@@ -199,25 +199,7 @@ def classify(case, impl, why):
         return None
     found = []
     toks = why.split()[1:]
-    restarted = {int(o[1:]) for o in case.partition("|")[2].split() if re.fullmatch(r"R\d+", o)}
     for tok in toks:
-        m = re.fullmatch(r"new:A(\d+)x\d+", tok)
-        if m and int(m.group(1)) in restarted:
-            # the orphan survives Stop and handles what it is sent afterwards
-            found.append("C17-F4")
-            continue
-        m = re.fullmatch(r"post:A(\d+)=0", tok)
-        if m and int(m.group(1)) in restarted:
-            found.append("C17-F4")
-            continue
-        m = re.fullmatch(r"order:A(\d+)-never-stopped-before-A\d+", tok)
-        if m and int(m.group(1)) in restarted:
-            found.append("C17-F4")
-            continue
-        m = re.fullmatch(r"accepted-after-stop:([xo]+)", tok)
-        if m and all(c == "x" or i in restarted for i, c in enumerate(m.group(1))):
-            found.append("C17-F4")
-            continue
         if re.fullmatch(r"in:A\d+", tok) or (re.fullmatch(r"new:A\d+x1", tok) and "burst" in case):
             # still inside Receive when Stop returned; or ONE Receive entered after it under unsynchronised
             # traffic (the worker had already picked the behaviour before reset() cleared it): both are
